@@ -134,6 +134,7 @@ func (a *Agent) GatherCandidates() error {
 		done := make(chan struct{})
 		a.gatherCandidateDone = done
 
+		a.gatherCycles.Add(1)
 		go a.gatherCandidates(ctx, done)
 	}); runErr != nil {
 		return runErr
@@ -143,6 +144,7 @@ func (a *Agent) GatherCandidates() error {
 }
 
 func (a *Agent) gatherCandidates(ctx context.Context, done chan struct{}) { //nolint:cyclop
+	defer a.gatherCycles.Done()
 	defer close(done)
 	applied, err := a.setGatheringState(ctx, GatheringStateGathering)
 	if err != nil {
@@ -903,7 +905,8 @@ func (a *Agent) gatherCandidatesSrflx(ctx context.Context, urls []*stun.URI, net
 		}
 		// If the agent closes midway through the connection
 		// we end it early to prevent close delay.
-		cancelCtx, cancelFunc := context.WithCancel(ctx)
+		// Not derived from ctx: a superseded cycle must still be unblocked when the agent closes.
+		cancelCtx, cancelFunc := context.WithCancel(context.Background()) //nolint:contextcheck
 		defer cancelFunc()
 		// Until a candidate owns it, the socket is closed exactly once by whichever
 		// of the watcher and the error paths below gets there first.
